@@ -184,6 +184,34 @@ impl Gen {
         }
     }
 
+    /// Add label VALUES that are not the canonical parse of their own printout (a one-character
+    /// `Str`, inner blanks, an alpha-looking `Str`, `Greek('α')`, the all-blank `Str`). Only for
+    /// properties that treat labels as values (C02, C03, C08, C10), never for text parse-back.
+    pub fn add_noncanon_labels(&mut self) {
+        let mut pool = vec![
+            Label::Str(['x', ' ', ' ', ' ', ' ', ' ', ' ', ' ']),
+            Label::Str(['a', ' ', 'b', ' ', ' ', ' ', ' ', ' ']),
+            Label::Str(['α', '1', ' ', ' ', ' ', ' ', ' ', ' ']),
+            Label::Greek('α'),
+            Label::Str([' '; 8]),
+            Label::Str(['ρ', ' ', ' ', ' ', ' ', ' ', ' ', ' ']),
+            Label::Greek(' '),
+        ];
+        self.rng.shuffle(&mut pool);
+        let k = self.rng.range(1, 3);
+        for l in pool.into_iter().take(k) {
+            if !self.labels.contains(&l) {
+                self.labels.push(l);
+            }
+        }
+        // and the canonical twin of one of them, so that the two must be kept apart
+        for l in [Label::Greek('x'), Label::Alpha(1), Label::Greek('ρ')] {
+            if self.rng.chance(1, 2) && !self.labels.contains(&l) {
+                self.labels.push(l);
+            }
+        }
+    }
+
     pub fn label(&mut self) -> Label {
         *self.rng.pick(&self.labels)
     }
